@@ -497,6 +497,21 @@ func (c *c14) constructs() {
 					}
 				case *ssa.Call:
 					cc := x.Call
+					// a func-typed or interface-typed FIELD of a struct declared in this package that is
+					// called / invoked must be nil-tested first: such fields are optional hooks
+					// (rt.CORSHandler, rt.SpecFileHandler) or optional parts of a value (ErrParseParam.Err)
+					if ld, ok := cc.Value.(*ssa.UnOp); ok && ld.Op == token.MUL {
+						if fa, ok := ld.X.(*ssa.FieldAddr); ok && c.ownStructField(fa) {
+							if !fieldNilGuarded(fn, fa, b) && !c.fieldAlwaysSet(fa) {
+								bad++
+								what := "called"
+								if cc.IsInvoke() {
+									what = "used as the receiver of ." + cc.Method.Name() + "()"
+								}
+								c.r.Violation("C14/no-panic-construct", fkey+":nil "+fieldNameOf(fa), c.s3.pos(x.Pos()), "field "+fieldNameOf(fa)+" is "+what+" without a dominating nil test: when it is not set (a hook left nil, an error value built without it) the call panics")
+							}
+						}
+					}
 					if sc := cc.StaticCallee(); sc != nil && !cc.IsInvoke() {
 						if idx, ok := c14ArgPanics[sc.String()]; ok && idx < len(cc.Args) && !nonNegativeByConstruction(cc.Args[idx], 0) {
 							bad++
@@ -1006,4 +1021,175 @@ func enclosingBlockOfStmt(root *ast.BlockStmt, st ast.Stmt) (*ast.BlockStmt, int
 		return blk == nil
 	})
 	return blk, idx
+}
+
+func fieldNameOf(fa *ssa.FieldAddr) string {
+	t := fa.X.Type()
+	if p, ok := t.Underlying().(*types.Pointer); ok {
+		t = p.Elem()
+	}
+	if st, ok := t.Underlying().(*types.Struct); ok && fa.Field < st.NumFields() {
+		return st.Field(fa.Field).Name()
+	}
+	return "?"
+}
+
+// ownStructField: the field belongs to a struct type declared in the analysed package and is of
+// func or interface type.
+func (c *c14) ownStructField(fa *ssa.FieldAddr) bool {
+	t := fa.X.Type()
+	if p, ok := t.Underlying().(*types.Pointer); ok {
+		t = p.Elem()
+	}
+	n, ok := types.Unalias(t).(*types.Named)
+	if !ok || n.Obj().Pkg() == nil || n.Obj().Pkg() != c.p.Pkg.Types {
+		return false
+	}
+	st, ok := n.Underlying().(*types.Struct)
+	if !ok || fa.Field >= st.NumFields() {
+		return false
+	}
+	switch st.Field(fa.Field).Type().Underlying().(type) {
+	case *types.Signature, *types.Interface:
+		return true
+	}
+	return false
+}
+
+// fieldNilGuarded: block `at` is dominated by the non-nil branch of a test `<same base>.<same field> != nil`.
+func fieldNilGuarded(fn *ssa.Function, fa *ssa.FieldAddr, at *ssa.BasicBlock) bool {
+	for _, b := range fn.Blocks {
+		if len(b.Instrs) == 0 {
+			continue
+		}
+		iff, ok := b.Instrs[len(b.Instrs)-1].(*ssa.If)
+		if !ok {
+			continue
+		}
+		bo, ok := iff.Cond.(*ssa.BinOp)
+		if !ok || (bo.Op != token.NEQ && bo.Op != token.EQL) {
+			continue
+		}
+		var other ssa.Value
+		var ld *ssa.UnOp
+		if l, ok := bo.X.(*ssa.UnOp); ok && l.Op == token.MUL {
+			ld, other = l, bo.Y
+		} else if l, ok := bo.Y.(*ssa.UnOp); ok && l.Op == token.MUL {
+			ld, other = l, bo.X
+		}
+		k, isConst := other.(*ssa.Const)
+		if ld == nil || !isConst || k.Value != nil {
+			continue
+		}
+		g, ok := ld.X.(*ssa.FieldAddr)
+		if !ok || g.Field != fa.Field || !sameBase(g.X, fa.X) {
+			continue
+		}
+		nonNil := b.Succs[0]
+		if bo.Op == token.EQL {
+			nonNil = b.Succs[1]
+		}
+		if nonNil.Dominates(at) && nonNil != b {
+			return true
+		}
+	}
+	return false
+}
+
+func sameBase(a, b ssa.Value) bool {
+	if a == b {
+		return true
+	}
+	// loads of the same local cell (value receivers are spilled: t0 = local T; *t0 = recv)
+	la, ok1 := a.(*ssa.UnOp)
+	lb, ok2 := b.(*ssa.UnOp)
+	if ok1 && ok2 && la.Op == token.MUL && lb.Op == token.MUL {
+		return la.X == lb.X
+	}
+	return false
+}
+
+// fieldAlwaysSet: the struct type is unexported-constructed only: every construction of it in the
+// package (composite literal, or `var x T` followed by `x.F = v` in the same function) gives the
+// field a value, and there is at least one construction. Exported configuration structs that the
+// user fills (API, Client) never qualify: their literals live outside the package.
+func (c *c14) fieldAlwaysSet(fa *ssa.FieldAddr) bool {
+	t := fa.X.Type()
+	if p, ok := t.Underlying().(*types.Pointer); ok {
+		t = p.Elem()
+	}
+	n, ok := types.Unalias(t).(*types.Named)
+	if !ok {
+		return false
+	}
+	exported := n.Obj().Exported()
+	st := n.Underlying().(*types.Struct)
+	fname := st.Field(fa.Field).Name()
+	info := c.p.Pkg.TypesInfo
+	nCons, allSet := 0, true
+	for _, f := range c.p.Pkg.Syntax {
+		for _, d := range f.Decls {
+			fd, ok := d.(*ast.FuncDecl)
+			if !ok || fd.Body == nil {
+				continue
+			}
+			ast.Inspect(fd.Body, func(nd ast.Node) bool {
+				switch x := nd.(type) {
+				case *ast.CompositeLit:
+					lt := info.TypeOf(x)
+					if lt == nil || !types.Identical(lt, n) {
+						return true
+					}
+					nCons++
+					set := false
+					for i, el := range x.Elts {
+						if kv, ok := el.(*ast.KeyValueExpr); ok {
+							if id, ok := kv.Key.(*ast.Ident); ok && id.Name == fname && !isNilIdent(kv.Value) {
+								set = true
+							}
+						} else if i == fa.Field && !isNilIdent(el) {
+							set = true
+						}
+					}
+					if !set {
+						allSet = false
+					}
+				case *ast.ValueSpec:
+					if x.Type == nil || len(x.Values) != 0 {
+						return true
+					}
+					if vt := info.TypeOf(x.Type); vt == nil || !types.Identical(vt, n) {
+						return true
+					}
+					for _, nm := range x.Names {
+						nCons++
+						vo := info.Defs[nm]
+						set := false
+						ast.Inspect(fd.Body, func(m ast.Node) bool {
+							if as, ok := m.(*ast.AssignStmt); ok {
+								for i, l := range as.Lhs {
+									if sel, ok := l.(*ast.SelectorExpr); ok && sel.Sel.Name == fname && identObj(info, sel.X) == vo && i < len(as.Rhs) && !isNilIdent(as.Rhs[i]) {
+										set = true
+									}
+								}
+							}
+							return true
+						})
+						if !set {
+							allSet = false
+						}
+					}
+				}
+				return true
+			})
+		}
+	}
+	// unexported and never constructed in the package: its methods are unreachable. An exported
+	// type qualifies only through the package's own constructions (constructor functions /
+	// literals): values the user builds by hand are the user's responsibility, but a type the
+	// package never constructs (API, Client: pure configuration) is all optional hooks.
+	if exported {
+		return nCons > 0 && allSet
+	}
+	return allSet
 }
